@@ -565,6 +565,9 @@ class Exec(object):
                 srcs = srcs * n.value
             if all(s.t.kind == 'set' for s in srcs):
                 tt = TUP(*[s.t.args[0] for s in srcs]); ps = S_pairs(tt, srcs)
+                if 'fin(' in repr(self.c.requires) + repr(self.c.loops):
+                    # trusted Finset fact B-product-finite (Set.Finite.prod): a product of finite sets is finite
+                    PRODUCT_FACTS.append(Implies(And([S.fin(s_) for s_ in srcs]), S.fin(ps)))
                 return ('set', ps)
             raise Unsupported('itertools.product over %s' % [s.t for s in srcs])
         if name in ('combinations', 'combinations_with_replacement'):
@@ -815,11 +818,26 @@ class Exec(object):
             return r
         raise Unsupported('list(%s)' % v.t)
 
+    def b_trig(self, p, e):
+        """spec only: trig(body, t1, t2, ...) is body; the terms t1.. become the instantiation trigger (a multi-pattern) of the
+        enclosing all(...).  Triggers steer the solver's search and nothing else: a bad trigger loses proofs, never soundness"""
+        if not self.spec_mode or not self.trig_acc: raise Unsupported('trig outside all(...)')
+        self.trig_acc[-1].append([self.ev(p, a).z for a in e.args[1:]])
+        return self.ev(p, e.args[0])
+
+    trig_acc = None
+
     def quant(self, p, e, universal):
-        g = self.ev(p, e.args[0])
+        if self.trig_acc is None: self.trig_acc = []
+        self.trig_acc.append([])
+        try: g = self.ev(p, e.args[0])
+        finally: trigs = self.trig_acc.pop()
         if isinstance(g, Gen):
             grd = And(g.guards) if g.guards else BoolVal(True)
             body = self.truth(g.elem)
+            if universal and trigs and g.vars:
+                pats = [z3.MultiPattern(*t) if len(t) > 1 else t[0] for t in trigs]
+                return SV(BOOL, ForAll(g.vars, Implies(grd, body), patterns=pats))
             if universal: return SV(BOOL, ForAll(g.vars, Implies(grd, body)) if g.vars else Implies(grd, body))
             return SV(BOOL, Exists(g.vars, And(grd, body)) if g.vars else And(grd, body))
         if g.t.kind == 'list' and g.t.args[0] == BOOL:
@@ -1250,7 +1268,12 @@ class Exec(object):
         return self.run_block([a], st.body) + self.run_block([b], st.orelse)
 
     def s_Return(self, p, st):
-        for i, a_ in enumerate(self.c.pre_return_asserts):
+        pra = self.c.pre_return_asserts
+        if isinstance(pra, dict):
+            rets = sorted((n.lineno, n.col_offset) for n in ast.walk(self.fn) if isinstance(n, ast.Return))
+            k = rets.index((st.lineno, st.col_offset)) + 1
+            pra = list(pra.get(k, [])) + (list(pra.get('last', [])) if k == len(rets) else [])
+        for i, a_ in enumerate(pra):
             g = self.spec(p, a_)
             self.oblig(p, 'assert-before-return#%d@%d' % (i + 1, st.lineno), 'assert', g, st.lineno)
             p.pc.append(g)
@@ -1334,6 +1357,8 @@ class Exec(object):
         self.check_inv(p, n, L, 'init')
         mod = assigned_names(st.body)
         h = p.clone(); self.havoc(h, mod); self.assume_inv(h, L)
+        for gn, src in (L.get('snapshot') or {}).items():       # ghost constants: the value of a spec term at the head of the iteration
+            h.ghost[gn] = self.spec_term(h, src)
         if L.get('decreases'):
             dec0 = [self.spec_term(h, d).z for d in L['decreases']]
         frame = {'breaks': [], 'continues': []}
